@@ -19,18 +19,20 @@ def encode_stream(payload, tx_dl=8, prefix=b'', last='min', pad=0xCC, force_esca
     n = len(payload)
     pl = len(prefix)
 
-    def finish(d):
+    def target(n_):
         if last == 'min':
-            t = next_fd(len(d))
-        elif last == 'pad8':
-            t = max(8, next_fd(len(d)))
-        elif last == 'padfd':
-            t = next_fd(len(d))
-        else:
-            t = tx_dl
-        return d + bytes([pad]) * (t - len(d))
+            return next_fd(n_)
+        if last == 'pad8':
+            return max(8, next_fd(n_))
+        if last == 'padfd':
+            return next_fd(n_)
+        return tx_dl
 
-    if n + pl <= 7:
+    def finish(d):
+        return d + bytes([pad]) * (target(len(d)) - len(d))
+
+    # Single Frame: length in the first byte only if the whole CAN frame is at most 8 bytes (CAN_DL <= 8)
+    if n + pl <= 7 and target(pl + 1 + n) <= 8:
         return [finish(prefix + bytes([n]) + payload)]
     if tx_dl > 8 and n <= tx_dl - 2 - pl:
         return [finish(prefix + bytes([0, n]) + payload)]
